@@ -453,6 +453,19 @@ def check(pid, tier, seed, t0, st, replay):
                             res.violations.append(replay_payload(pid, b_['case'], b_['what'] + ' (scanned from disk with graph.Initialize)', b_['detail']))
                         else:
                             res.violations.append(dict(property=pid, what=b_['what'], detail=b_.get('file', '')))
+                if pid == 'C04':
+                    # text mode: what is printed next to each line number, under every line-ending convention
+                    import engine
+                    lfiles = engine.listing_files() + [('fam/%s/%s' % (c_['id'], os.path.basename(c_['path'])), c_['data']) for c_ in cases if c_['origin'] == 'family' and len(c_['data']) < 20000][:6 if tier == 'quick' else 60]
+                    if replay:
+                        lfiles = [('replay/' + os.path.basename(c_['path']), c_['data']) for c_ in cases]
+                    lstats, lviol, ldis = engine.text_listing(lfiles, work)
+                    stats.update(lstats)
+                    for v_ in lviol[:3]:
+                        res.violations.append(dict(property=pid, what=v_['what'], detail=v_['detail'], path=v_['file'], origin='listing', data_b64=base64.b64encode(v_['data']).decode(),
+                                                   how='scan a directory holding this file and run the query named in detail with --output text'))
+                    if ldis and not any('text report' in t for t in res.tie_broken):
+                        res.tie_broken.append('text report vs Engine/Render.v: ' + ldis[0][:400])
                 notwf = [cid for cid, r in ex['recs'].items() if r.get('wf') is False]
                 if notwf:
                     res.tie_broken.append('cst_wfb (assumption about tree-sitter) false on %d trees, e.g. %s' % (len(notwf), notwf[0]))
